@@ -2,9 +2,7 @@
  * Route H: real uriEqualsUri + real uriCompareRange (inlined, verified in place) + CBMC's strncmp/wcsncmp/memcmp,
  * on two symbolic well-formed URIs with <= VM segments and <= VL characters per component. */
 #include "vh.h"
-#include "vlibc.h"
-#include "UriCommon.c"
-#include "UriCompare.c"
+#include "vall.h"
 #include "vuri.h"
 
 #ifndef KF_C11_ABSPATH_WITH_SCHEME
@@ -66,26 +64,26 @@ void harness(void) {
 
 	r = URI_FUNC(EqualsUri)(a_null ? NULL : &ua, b_null ? NULL : &ub);
 
-	VPOST(r == URI_TRUE || r == URI_FALSE, "EqualsUri returns a UriBool");
+	VPOST("C11", r == URI_TRUE || r == URI_FALSE, "EqualsUri returns a UriBool");
 	if (a_null || b_null) {
-		VPOST((r == URI_TRUE) == (a_null && b_null), "EqualsUri: two NULL arguments are equal, one NULL is not");
+		VPOST("C11", (r == URI_TRUE) == (a_null && b_null), "EqualsUri: two NULL arguments are equal, one NULL is not");
 	} else {
 		expect = spec_equal(&a, a_pool, &b, b_pool, 0);
 		expect_noabs = spec_equal(&a, a_pool, &b, b_pool, 1);
-		VPOST(!expect || r == URI_TRUE, "EqualsUri: identical components => TRUE");
+		VPOST("C11", !expect || r == URI_TRUE, "EqualsUri: identical components => TRUE");
 		/* known-finding region: everything but the absolute-path flag is identical and a scheme is present */
-		VPOST_KF(KF_C11_ABSPATH_WITH_SCHEME, (expect_noabs && !expect && a.scheme.len >= 0),
+		VPOST_KF("C11", KF_C11_ABSPATH_WITH_SCHEME, (expect_noabs && !expect && a.scheme.len >= 0),
 			expect || r == URI_FALSE, "EqualsUri: any differing component (incl. absolute-path flag, absent vs empty) => FALSE",
 			"C11-abspath-ignored-when-scheme-present");
 	}
 	VCOVER(!a_null && !b_null && r == URI_TRUE && a.nseg == VM && a.query.len == VL, "equal pair with VM segments and a long query");
 	VCOVER(!a_null && !b_null && r == URI_FALSE, "unequal pair");
 	/* frame: neither argument is modified (structures, watched node, watched text cell) */
-	VFRAME(same_struct(&ua, &sa) && same_struct(&ub, &sb), "EqualsUri leaves both Uri structures bit-for-bit unchanged");
-	VFRAME(pna == NULL || (pna->next == na.next && pna->text.first == na.text.first && pna->text.afterLast == na.text.afterLast
+	VFRAME("C11,C12,C20", same_struct(&ua, &sa) && same_struct(&ub, &sb), "EqualsUri leaves both Uri structures bit-for-bit unchanged");
+	VFRAME("C11,C12,C20", pna == NULL || (pna->next == na.next && pna->text.first == na.text.first && pna->text.afterLast == na.text.afterLast
 		&& pna->reserved == na.reserved), "EqualsUri leaves every path node of a unchanged (ghost-indexed)");
-	VFRAME(pnb == NULL || (pnb->next == nb.next && pnb->text.first == nb.text.first && pnb->text.afterLast == nb.text.afterLast
+	VFRAME("C11,C12,C20", pnb == NULL || (pnb->next == nb.next && pnb->text.first == nb.text.first && pnb->text.afterLast == nb.text.afterLast
 		&& pnb->reserved == nb.reserved), "EqualsUri leaves every path node of b unchanged (ghost-indexed)");
-	VFRAME(a_pool[gk] == wa && b_pool[gk] == wb, "EqualsUri leaves the text unchanged (ghost-indexed)");
-	VFRAME(g_allocs == 0 && g_frees == 0, "EqualsUri neither allocates nor frees");
+	VFRAME("C11,C12,C20", a_pool[gk] == wa && b_pool[gk] == wb, "EqualsUri leaves the text unchanged (ghost-indexed)");
+	VFRAME("C11,C13,C20", g_allocs == 0 && g_frees == 0, "EqualsUri neither allocates nor frees");
 }
